@@ -2,7 +2,7 @@
 From Coq Require Import List NArith ZArith Bool.
 From SK Require Import lib.LGraph lib.Mono.
 From SK Require model.C06_Model model.C11_Model.
-From SK Require Import model.C03_Model model.C05_Model proof.C05_Proof proof.C05_Glue proof.C05_Pipe proof.C05_Prep proof.C05_Comp proof.C05_Main proof.C05_Order proof.C05_Sub proof.C05_Set proof.C05_Result proof.C05_AllStrat proof.C05_PrepOrder proof.C05_Final proof.C05_Default proof.C05_Rewrite proof.C05_Capstone proof.C05_Refuted proof.C05_Cap.
+From SK Require Import model.C03_Model model.C05_Model proof.C05_Proof proof.C05_Glue proof.C05_Pipe proof.C05_Prep proof.C05_Comp proof.C05_Main proof.C05_Order proof.C05_Sub proof.C05_Set proof.C05_Result proof.C05_AllStrat proof.C05_PrepOrder proof.C05_Final proof.C05_Default proof.C05_Rewrite proof.C05_Capstone proof.C05_Refuted proof.C05_Cap proof.C05_AnyCap proof.C05_Partial proof.C05_PartialOrder proof.C05_PartialCap.
 From SK Require Import lib.C06_Spec proof.C06_Comp.
 From SK Require proof.C11_Dedup.
 From Coq Require Import Permutation.
@@ -354,3 +354,63 @@ Lemma thm_comp_subset_capped_refuted :
     length (@glued_of (thr_of (Some 3%N)) 1%N host p) = 2%nat /\
     @glued_of (thr_of (Some 3%N)) 2%N host p = @glued_of (thr_of (Some 3%N)) 1%N host p.
 Proof. exact comp_subset_capped_refuted. Qed.
+
+(** ** the exhaustive strategy under every cap (proof/C05_AnyCap.v) *)
+Lemma thm_result_set_invariant_exhaustive_any_cap :
+  (forall host p, side_okb0 host p = true ->
+     p_flag p = false /\ gwf (host_c06 host) /\ gwf (pat_c06 (p_pat p)) /\
+     NoDup (node_ids (p_rc p)) /\ simple_edgesb (gedges (p_rc p)) = true /\
+     (forall a b x, In (a, b, x) (gedges (p_rc p)) -> In a (node_ids (p_rc p)) /\ In b (node_ids (p_rc p))) /\
+     (forall u, In u (node_ids (p_pat p)) -> In u (node_ids (p_rc p)))) /\
+  (forall (TH : Thr) host p, side_okb host p = true -> side_okb0 host p = true) /\
+  (forall (TH : Thr) (sg pi : N -> N), inj sg -> inj pi ->
+   forall (host host'' : hostg) (p p'' : prepared),
+     side_okb0 (relabel pi host) (relabel_prep sg p) = true -> side_okb0 host'' p'' = true ->
+     same_graph (relabel pi host) host'' -> same_graph (relabel sg (p_rc p)) (p_rc p'') ->
+     same_graph (relabel sg (p_pat p)) (p_pat p'') ->
+     (forall T, In T (glued_of 0%N host p) -> exists T'', In T'' (glued_of 0%N host'' p'') /\ obs_eq (relabel pi T) T'') /\
+     (forall T'', In T'' (glued_of 0%N host'' p'') -> exists T, In T (glued_of 0%N host p) /\ obs_eq (relabel pi T) T'')).
+Proof.
+  split.
+  { intros host p H. destruct (side_okb0_ok host p H) as [A B C E F G I].
+    split; [exact A|]. split; [exact B|]. split; [exact C|]. split; [exact E|]. split; [exact F|]. split; [exact G | exact I]. }
+  split; [intros TH host p; apply side_okb_okb0|].
+  intros TH sg pi Hs Hp host host'' p p'' S S'' Hh Hr Hpt.
+  apply (glued_set_rewriting_any_cap sg pi Hs Hp host host'' p p''); try assumption; apply side_okb0_ok; assumption.
+Qed.
+
+(** ** SynReactor(partial=True) (proof/C05_Partial.v) *)
+Lemma thm_partial_equivariant :
+  forall (TH : Thr) (strat : N) (sg pi : N -> N), inj sg -> inj pi ->
+  (forall (host : hostg) (pat : molg),
+     partial_matches strat (relabel pi host) (relabel sg pat) = option_map (map (mv sg pi)) (partial_matches strat host pat)) /\
+  (forall (host : hostg) (p : prepared),
+     partial_matches strat (relabel pi host) (p_pat (relabel_prep sg p))
+     = option_map (map (mv sg pi)) (partial_matches strat host (p_pat p)) /\
+     forall raw, partial_matches strat host (p_pat p) = Some raw ->
+       prune (p_rc (relabel_prep sg p)) (map (mv sg pi) raw) = map (mv sg pi) (prune (p_rc p) raw)).
+Proof.
+  intros TH strat sg pi Hs Hp. split.
+  - intros host pat. apply partial_matches_relabel; assumption.
+  - intros host p. apply partial_kept_relabel; assumption.
+Qed.
+
+Lemma thm_partial_capped_order_dependent_refuted :
+  exists (host host' : hostg) (pat : molg),
+    same_graph host host' /\ gnodes host' <> gnodes host /\
+    pmax_of (Some 100%N) = 1%N /\
+    @partial_matches (thr_of (Some 100%N)) 0%N host pat = Some [[(2%N, 3%N)]] /\
+    @partial_matches (thr_of (Some 100%N)) 0%N host' pat = Some [[(2%N, 5%N)]] /\
+    (exists r r', @partial_matches (thr_of None) 0%N host pat = Some r /\ @partial_matches (thr_of None) 0%N host' pat = Some r' /\
+                  length r = 6%nat /\ Permutation.Permutation r r').
+Proof. exact partial_capped_order_refuted. Qed.
+
+Lemma thm_partial_matches_order_independent :
+  forall (TH : Thr) (host host' : hostg) (pat : molg),
+    pmax_val = 0%N -> same_graph host host' ->
+    match partial_matches 0%N host pat, partial_matches 0%N host' pat with
+    | Some r, Some r' => forall m, In m r <-> In m r'
+    | None, None => True
+    | _, _ => False
+    end.
+Proof. intros TH host host' pat. apply partial_matches_host_order. Qed.
